@@ -108,7 +108,11 @@ func VerifC01WellFormedCount() int {
 	return len(c01Atoms) + len(c01Combs) + len(c01Globals) + VerifC01GenCount() + len(c01Deep)
 }
 
-func VerifC01WellFormed(i int) {
+// The shape of the generated code is an implementation matter; the property is about matches. An
+// unexpected shape is therefore only a lead: the harness then searches for an input of at most T bytes on
+// which the program's matches differ from the reference semantics, and reports a violation only with such
+// an input. Without one the run is inconclusive.
+func VerifC01WellFormed(i int, T int) {
 	src := c01WellFormedSource(i)
 	vNote("source", src)
 	bc := vGen(vParse(src))
@@ -124,7 +128,25 @@ func VerifC01WellFormed(i int) {
 		}
 		vReach("body-checked")
 		if msg := c01CheckBody(body); msg != "" {
-			vFail("generated code is not well formed: " + msg)
+			vNote("code-shape", msg)
+			c01Witness(src, T)
+			vUnproved("generated code has an unexpected shape (" + msg + ") and no input of up to " + vItoa(T) + " bytes separates it from the reference semantics: " + src)
 		}
 	}
+}
+
+// c01Witness looks for an input of at most T bytes on which the real pipeline and the reference semantics
+// differ for this program (fails with the ordinary C01 message when there is one).
+func c01Witness(src string, T int) {
+	a := vParse(src)
+	text := vText("text", 0, T, true)
+	vNote("text", text)
+	c01Compare(a, text, 0)
+}
+
+// VerifC01DeepCmp: the long-witness programs compared with the reference semantics at a larger text bound.
+func VerifC01DeepCmp(i int, T int) {
+	src := c01Deep[i]
+	vNote("source", src)
+	c01Witness(src, T)
 }
